@@ -116,6 +116,10 @@ def transcript_of(data: dict, world: dict) -> dict:
         return {"transcript": [["setup", "exc", type(e).__name__, str(e)[:200]]], "digest": stable_hash("setup-exc"), "notes": notes,
                 "z3_unknown": False, "final": None}
     z3_unknown = False
+    if world.get("sym_align_u") is not None and sdata.get("n_syms"):
+        # targeted: the power-of-ten boundary of the symbol counter falls at a seeded position INSIDE
+        # the symbols this op list creates (an id with one more digit sorts differently as text)
+        world = dict(world, sym_align=1 + int(world["sym_align_u"] * int(sdata["n_syms"])))
     if world.get("sym_align"):
         # place the symbol counter a few ids below a power of ten, so that symbols created by the
         # following operations straddle it (orderings by printed id flip there)
